@@ -51,6 +51,16 @@ macro_rules! bodies {
             cover!(N <= 2 || (got >> (32 - N)) & 1 == 1 && f & 0xffff != 0);
             cmp_n(N, got, r::from_f64_bits(N, $es, f)).and(Outcome::eq(got2 as u64, got as u64))
         }
+        /// the same, restricted to floats whose mantissa has at most MB significant bits (every sign, every exponent in
+        /// [-160, 160]): cheap enough for the quick tier, and it contains the exact ties 1.5 * 2^e and all powers of two
+        pub fn from_f64_short<const N: u32, const MB: u32, S: Src>(s: &mut S) -> Outcome {
+            let f = s.u64();
+            let ex = ((f >> 52) & 0x7ff) as i32;
+            crate::assume!(s, ex >= 1023 - 160 && ex <= 1023 + 160 && f & ((1u64 << (52 - MB)) - 1) == 0);
+            let got = $P::<N>::from_f64(f64::from_bits(f)).to_bits();
+            cover!(N <= 2 || (got >> (32 - N)) & 1 == 1 && (f >> (52 - MB)) & 1 == 1);
+            cmp_n(N, got, r::from_f64_bits(N, $es, f))
+        }
         pub fn from_f32<const N: u32, S: Src>(s: &mut S) -> Outcome {
             let f = s.u32();
             let ex = ((f >> 23) & 0xff) as i32;
